@@ -114,6 +114,13 @@ def handle : List String → Option String
       match createCommonTime roundHalfEven ss ((sers.head?.map (·.2)).getD []) twin with
       | .ok ct => some ("ok " ++ showRats ct)
       | .error e => some ("err " ++ showErr e)
+  -- `TsDB.is_common_time(names, twin)` on series without `dtg_ref`: `ex.iscommon twin=… ; - | t… ; - | t…`
+  | "ex.iscommon" :: tw :: ";" :: rest => do
+    let (twin, _) ← twinRes? tw "res=-"
+    let sers ← (splitSemi rest).mapM timeOnly?
+    match isCommonTime (sers.map (·.2)) twin with
+    | some b => some (if b then "ok 1" else "ok 0")
+    | none => some "err"
   | "ex.names" :: cwd :: base :: keys => do
     let cwd ← kv? "cwd=" cwd
     let base ← bool? "base=" base
@@ -163,6 +170,26 @@ def handle : List String → Option String
         | some (t, x) => hex n ++ ":" ++ showRats t ++ ":" ++ showRats x
         | none => hex n ++ ":missing"
       some ("ok " ++ joinWith " " body)
+  -- ascii rows (`q` = identity: values that `%15.7g` prints exactly): `ex.rows n=<rows> m=<columns read> | time… | x1… | …`;
+  -- reply: the rows `encodeRows` writes and the columns `decodeRows` reads back from them
+  | "ex.rows" :: n :: m :: "|" :: rest => do
+    let n ← (← kv? "n=" n).toNat?
+    let m ← (← kv? "m=" m).toNat?
+    let cols ← (splitBar rest).mapM parseRats?
+    let rows := encodeRows (id : Rat → Rat) cols n
+    some ("ok rows=" ++ joinWith ";" (rows.map showRats) ++ " cols=" ++ joinWith ";" ((decodeRows rows m).map showRats))
+  -- pickled frame: `ex.pkl <names> | t… | x1… | …`; reply: names, index and columns `decodePkl (encodePkl …)` returns
+  | "ex.pkl" :: names :: "|" :: rest => do
+    let names ← strList? names
+    match splitBar rest with
+    | t :: xs => do
+      let t ← parseRats? t
+      let xs ← xs.mapM parseRats?
+      match decodePkl (encodePkl names t xs) with
+      | .ok (ns, ti, cs) =>
+        some ("ok " ++ Qats.Driver.Names.showList ns ++ " " ++ showRats ti ++ " " ++ joinWith ";" (cs.map showRats))
+      | .error e => some ("err " ++ showErr e)
+    | _ => none
   | _ => none
 
 end Qats.Driver.Export
